@@ -169,8 +169,8 @@ def diff_nodes(a: dict, b: dict, ignore=()) -> list:
             continue
         na, nb = a[uid], b[uid]
         for field in sorted(set(na) | set(nb)):
-            if field in ignore or (field == "pg_children" and (field not in na or field not in nb)):
-                continue  # (a reference model has no child list of its own)
+            if field in ignore or field == "pg_children":
+                continue  # (judged inside one snapshot against `pgs`, see compare_model; a reference model keeps none)
             if na.get(field) != nb.get(field):
                 out.append((uid, field, na.get(field), nb.get(field)))
     return out
